@@ -343,8 +343,11 @@ func c04Run(t *testing.T, c *choice.Stream, r *Result, opt RunOpt, forced *c04Fo
 		e.W.ShortReads = c.Pick("shortreads", 0, 0, 100)
 
 		// ---- fault plan ----
-		fault := c.Weighted("fault", 3, 3, 3, 3, 4, 2, 2)
-		faultName := []string{"cut_fin", "cut_rst", "write_err", "callback_err", "exception", "bad_code", "unexpected"}[fault]
+		fault := c.Weighted("fault", 3, 3, 3, 3, 4, 2, 2, 1)
+		faultName := []string{"cut_fin", "cut_rst", "write_err", "callback_err", "exception", "bad_code", "unexpected", "rows_mismatch"}[fault]
+		if faultName == "rows_mismatch" && (sc.kind != "insert" || len(sc.inCols) < 2) {
+			faultName = "exception"
+		}
 		script := sc.script
 		qStart := sc.afterHandshake
 		var cutK, werrK int
@@ -394,6 +397,13 @@ func c04Run(t *testing.T, c *choice.Stream, r *Result, opt RunOpt, forced *c04Fo
 				names = []string{"input"}
 			}
 			sc.rec.FailAt = map[string]int{names[c.Draw("cb.name", len(names))]: 1 + c.Draw("cb.j", 3)}
+		case "rows_mismatch":
+			// the caller hands over input columns of unequal length: the block is refused while it is being written
+			extra := sc.inCols[len(sc.inCols)-1]
+			cs := sc.cols[len(sc.cols)-1]
+			if err := gen.Fill(extra, cs.RT, gen.Values(c.Sub("mismatch.vals"), cs.RT, 1+c.Draw("mismatch.n", 3))); err != nil {
+				panic(err)
+			}
 		case "exception", "bad_code", "unexpected":
 			// replace the script from position p (>= after the Query packet) on
 			p := qStart + 1 + c.Draw("fault.pos", len(script)-qStart-1)
